@@ -123,7 +123,10 @@ func (b CCFeedbackReport) Marshal() ([]byte, error) {
 	if err != nil {
 		return nil, err
 	}
-	length := 4 * (header.Length + 1)
+	if b.MarshalSize() > 4*(math.MaxUint16+1) {
+		return nil, errWrongMarshalSize
+	}
+	length := 4 * (int(header.Length) + 1)
 	buf := make([]byte, length)
 	copy(buf[:headerLength], headerBuf)
 	binary.BigEndian.PutUint32(buf[headerLength:], b.SenderSSRC)
